@@ -18,14 +18,30 @@ class FakeRandom:
         self.cx = cx
         self.n = 0
 
-    def shuffle(self, lst):
+    def _order(self, n):
         import itertools
-        if self.cx is None or len(lst) < 2:
-            return
-        perms = list(itertools.permutations(range(len(lst))))
+        if self.cx is None or n < 2:
+            return list(range(n))
+        perms = list(itertools.permutations(range(n)))
         k = self.cx.choice('shuffle%d' % self.n, len(perms)) if self.n < 2 else 0   # (first two polls: any order)
         self.n += 1
-        lst[:] = [lst[i] for i in perms[k]]
+        return list(perms[k])
+
+    def shuffle(self, lst):
+        lst[:] = [lst[i] for i in self._order(len(lst))]
+
+    def sample(self, population, k, **kw):
+        population = list(population)
+        return [population[i] for i in self._order(len(population))][:k]
+
+    def choice(self, seq):
+        seq = list(seq)
+        return seq[self._order(len(seq))[0]]
+
+    def __getattr__(self, name):
+        # any other source of randomness is not modelled: the verdict must not rest on it
+        from pysym.core import Unmodelled
+        raise Unmodelled('random.%s is not modelled by the harness double' % name)
 
 
 class Env:
